@@ -7,7 +7,7 @@
    revealed so far), Model/NetObs.v (dumps, the predicates [C13_ok] / [C13_rob_ok] = the
    runtime oracle of ./check C13). *)
 From Coq Require Import String.
-From Verif Require Import TrackerSpec TrackerSpecFacts StateHandlers Net NetObs NetProofs.
+From Verif Require Import TrackerSpec TrackerSpecFacts StateHandlers Net NetObs NetProofs NetSim NetModes NetSimEv NetInv.
 From Verif Require GoBytes LineLib Line LineSend Consts Facts.
 Open Scope Z_scope.
 
@@ -18,15 +18,19 @@ Definition zc (c : N) : Consts.lit := Consts.LInt (Z.of_N c).
 Definition prefix_lits (c : N) : list Consts.lit :=
   match prefix_mode c with Some m => [zc c; Consts.LStr m] | None => [] end.
 
+(* the method value of a handler as the translator prints it; written in two pieces so that this
+   file contains no comment opener inside a string *)
+Definition hname (s : string) : string := ("(" ++ "*Conn)." ++ s)%string.
+
 Lemma tie_C13 :
   (* the 13 verbs, in source order, and the handler each is bound to *)
   Consts.varlits_client_stHandlers = map (fun h => Consts.LStr (sth_verb h)) all_sth
   /\ Facts.var_client_stHandlers =
-       ["""JOIN"""; "(*Conn).h_JOIN"; """KICK"""; "(*Conn).h_KICK"; """MODE"""; "(*Conn).h_MODE";
-        """NICK"""; "(*Conn).h_STNICK"; """PART"""; "(*Conn).h_PART"; """QUIT"""; "(*Conn).h_QUIT";
-        """TOPIC"""; "(*Conn).h_TOPIC"; """311"""; "(*Conn).h_311"; """324"""; "(*Conn).h_324";
-        """332"""; "(*Conn).h_332"; """352"""; "(*Conn).h_352"; """353"""; "(*Conn).h_353";
-        """671"""; "(*Conn).h_671"]%string
+       ["""JOIN"""; hname "h_JOIN"; """KICK"""; hname "h_KICK"; """MODE"""; hname "h_MODE";
+        """NICK"""; hname "h_STNICK"; """PART"""; hname "h_PART"; """QUIT"""; hname "h_QUIT";
+        """TOPIC"""; hname "h_TOPIC"; """311"""; hname "h_311"; """324"""; hname "h_324";
+        """332"""; hname "h_332"; """352"""; hname "h_352"; """353"""; hname "h_353";
+        """671"""; hname "h_671"]%string
   (* statement skeletons of the handlers that create / remove tracked objects *)
   /\ Facts.flow_client_Conn_h_JOIN =
        ["conn.st.GetChannel"; "conn.st.GetNick"; "if{"; "conn.Me().Equals"; "conn.Me"; "if{"; "return"; "}";
@@ -68,6 +72,61 @@ Lemma tie_C13 :
   (* the prefixes the network model writes are the ones the handler strips, with the same meaning *)
   /\ forallb (fun c => bool_decide (prefix_mode (prefix_of_letter c) = Some [43%N; c])) [113; 97; 111; 104; 118]%N = true.
 Proof. repeat split; vm_compute; reflexivity. Qed.
+
+(* ---------- first sentence: conformant sessions ----------
+   [wf_net nt] (Proofs/NetSimEv.v): the truth is consistent, its names are protocol words, and
+   the VIEW holds EXACTLY the client's channels (d1), EXACTLY their memberships (d2), EXACTLY
+   the client and the users sharing a channel with it (d3).  [feed t ms] = the tracker after
+   the handlers processed the lines [expected ms] (what ParseLine delivers for the rendered
+   messages, C01_roundtrip).  [ev_inclaim]: no argument-taking mode letter after "-k" or a
+   list mode in one MODE line (property text + DESIGN D10). *)
+
+(* ONE EVENT, every kind (join of the client with 332/353*/366, join of others, part, kick,
+   quit, nick, topic, mode, 324, WHO replies): the handlers turn the view before the event into
+   the view after it *)
+Theorem C13_sim_step : forall nt e,
+  wf_net nt -> ev_inclaim e = true -> feed (n_view nt) (lines_for nt e) = n_view (step nt e).
+Proof. exact sim_step. Qed.
+
+(* the state after registration is well-formed *)
+Theorem C13_sim_init : forall me ui attr,
+  nick_ok me = true -> LineSend.name_ok (ui_user ui) = true -> LineSend.name_ok (ui_host ui) = true ->
+  text_ok (ui_real ui) = true -> wf_net (net0 me ui attr).
+Proof. exact wf_net0. Qed.
+
+(* SESSIONS of any length.  PARTIAL: well-formedness along the run is a HYPOTHESIS here.
+   Full statement (kept):
+     forall me ui attr evs, nick_ok me = true -> ... -> Forall (fun e => ev_inclaim e = true) evs ->
+       run_raw (view0 me attr) (map wire (all lines of evs)) = n_view (run_net (net0 me ui attr) evs)
+       /\ wf_net (run_net (net0 me ui attr) evs).
+   Missing: (a) [wf_net] is preserved by EJoin / EPart / EKick / EQuit / ENick (proved below for
+   all other kinds and for every invalid event); (b) every message of [lines_for] satisfies
+   [wf_msg] (then [recv_one (wire m) = expected m] by C01_recv).  Both are CHECKED dynamically
+   by ./check C13 on every generated session: (b) by the agreement of the Go simulator's wire
+   lines with [render (lines_for ..)] and of the real tracker with the model fold, (a) by
+   [exact_dom] (key sets of the real tracker = memberships of the truth) at every marker. *)
+Theorem C13_sim_partial : forall evs nt,
+  (forall k, wf_net (run_net nt (firstn k evs))) -> Forall (fun e => ev_inclaim e = true) evs ->
+  track nt (n_view nt) evs = n_view (run_net nt evs).
+Proof. exact sim_session. Qed.
+
+Theorem C13_wf_step_partial : forall nt e,
+  wf_net nt -> (membership_event e = true -> ev_valid nt e = false) -> wf_net (step nt e).
+Proof. exact wf_step_partial. Qed.
+
+(* the mode parser on a rendered mode line computes the meaning of the changes (flags, +k/-k,
+   +l/-l, privileges of members, list modes), for every line inside the claim *)
+Theorem C13_mode_line : forall t c chs tail,
+  Forall (chg_good c (ts_member t)) chs -> modes_inclaim chs = true ->
+  fst (sp_ChannelModes t c (render_modes None chs) (mode_args chs ++ tail)) = v_modes t c chs.
+Proof. exact ChannelModes_changes. Qed.
+
+(* once a WHO reply about a known user arrived, the view holds the truth's user@host and real name *)
+Theorem C13_who_reveals : forall nt n ui a,
+  n_users nt !! n = Some ui -> ts_nicks (n_view nt) !! n = Some a -> n <> n_me nt ->
+  exists a', ts_nicks (n_view (step nt (EReplyWhoNick n))) !! n = Some a'
+             /\ na_ident a' = ui_user ui /\ na_host a' = ui_host ui /\ na_name a' = ui_real ui.
+Proof. exact who_reveals. Qed.
 
 (* ---------- second sentence: arbitrary, non-conformant lines ---------- *)
 (* [rob_ok] (Model/StateHandlers.v) = (1) the client's own nick is tracked, (2) every tracked
@@ -133,14 +192,11 @@ Definition x_session : list event :=
    EPart x_al x_x [98;121;101]%N;
    EQuit [98;111;50]%N [103;111;110;101]%N].
 
-Definition feed (t : tstate) (ms : list LineSend.msg) : tstate := run_lines t (map LineSend.expected ms).
-Fixpoint x_track (nt : net) (t : tstate) (evs : list event) : tstate :=
-  match evs with [] => t | e :: r => x_track (step nt e) (feed t (lines_for nt e)) r end.
 
 (* the final tracker: channels #x (topic, +t, key, limit 25) and #y with the client alone on
    both ... and it equals the network's view, and all server lines were well-formed *)
 Example C13_example_session :
-  let t := x_track x_net0 (n_view x_net0) x_session in
+  let t := track x_net0 (n_view x_net0) x_session in
   bool_decide (t = n_view (run_net x_net0 x_session)) = true
   /\ dump (Build_universe [x_me; x_al; x_bo; x_cy; [98;111;50]%N] [x_x; x_y]) t
      = [[78]; x_me; [118;105]; [99;46;101;120]; [118;32;110]; []; [50]; x_x; []; x_y; [111];
@@ -168,7 +224,24 @@ Example C13_example_hostile :
   /\ rob_ok t3 = true /\ rob_ok t4 = true.
 Proof. vm_compute. repeat split; reflexivity. Qed.
 
+(* OUTSIDE THE CLAIM (DESIGN D10): "MODE #x +bo *!*@* vbot" — the list mode shifts the
+   arguments and the tracker loses the +o that the network granted *)
+Example C13_D10_witness :
+  let evs := [EConnect x_al [97]%N [104;49]%N []; EJoin x_al x_x; EJoin x_me x_x;
+              EMode x_al x_x [MList true 98 [42;33;42;64;42]; MPriv true 111 x_me]%N] in
+  ev_inclaim (List.last evs (EJoin [] [])) = false
+  /\ option_map cp_o (ts_member (n_view (run_net x_net0 evs)) !! (x_x, x_me)) = Some true
+  /\ option_map cp_o (ts_member (track x_net0 (n_view x_net0) evs) !! (x_x, x_me)) = Some false.
+Proof. vm_compute. repeat split; reflexivity. Qed.
+
 Print Assumptions tie_C13.
+Print Assumptions C13_sim_step.
+Print Assumptions C13_sim_init.
+Print Assumptions C13_sim_partial.
+Print Assumptions C13_wf_step_partial.
+Print Assumptions C13_mode_line.
+Print Assumptions C13_who_reveals.
+Print Assumptions C13_D10_witness.
 Print Assumptions C13_robust_step.
 Print Assumptions C13_robust.
 Print Assumptions C13_robust_bytes.
